@@ -458,6 +458,29 @@ type recWriter struct {
 
 var errWriterFailed = fmt.Errorf("writer failed")
 
+// richWriter: an io.Writer that has the optional methods of bytes.Buffer and
+// bufio.Writer as well (what a wrapper embedding one of them and overriding
+// Write looks like). They succeed, and record that they were used.
+type richWriter struct {
+	*recWriter
+	others []string
+}
+
+func (w *richWriter) WriteString(s string) (int, error) {
+	w.others = append(w.others, "WriteString")
+	return len(s), nil
+}
+func (w *richWriter) WriteByte(c byte) error { w.others = append(w.others, "WriteByte"); return nil }
+func (w *richWriter) WriteRune(r rune) (int, error) {
+	w.others = append(w.others, "WriteRune")
+	return 1, nil
+}
+func (w *richWriter) ReadFrom(r io.Reader) (int64, error) {
+	w.others = append(w.others, "ReadFrom")
+	b, err := io.ReadAll(r)
+	return int64(len(b)), err
+}
+
 func (w *recWriter) Write(p []byte) (int, error) {
 	w.calls = append(w.calls, append([]byte(nil), p...))
 	switch w.mode {
